@@ -2,10 +2,15 @@
 
 Proof: lean/PGA/Props/C02.lean about the model PGA/Model/Scheme.lean (the decomposition logic of Scheme.py above the
 matcher) — `getDescriptors` equals the declarative reading of the scheme for every molecule size and every match list;
-remaps of chain-free tables are the linear substitution, independent of key order.  The matcher below it is C08.
-Tie: GroupLibrary.GetDescriptors(smiles) vs the model driver fed with a graph normalised independently of the repo's
-code; per-atom centre/peripheral names compared through the guarded hook.  Oracle: implementation vs the declarative
-interpretation written from the property text.
+remaps of chain-free tables are the linear substitution, independent of key order — and lean/PGA/Props/C02Full.lean about
+the end-to-end model PGA/Model/Decompose.lean (`decompose` = Benson perception, reader, matcher of C08, decomposition):
+with C08's matcher theorem plugged in, `decompose S m` equals the declared decomposition in which every pattern's matches
+are exactly its embeddings.
+Ties: GroupLibrary.GetDescriptors(smiles) vs (a) the model above the matcher fed with the implementation's match lists and
+(b) the end-to-end model fed with the raw graph (normalised independently of the repo's code, not aromatised), the parse
+trees of the scheme's pattern texts and the remap table; per-atom names and the aromatised graph compared through the
+guarded hook.  Oracles: implementation vs the declarative interpretation written from the property text, with the
+implementation's matcher and — independently of it — with every pattern read as the set of its embeddings (lib_embeds).
 """
 import json, collections
 from fractions import Fraction
@@ -24,11 +29,17 @@ RULE = ('cases = (scheme, molecule): the nine shipped schemes and synthetic sche
         '(gas C/H/O/N chains, branches, rings 3-9, fused/spiro/bridged, alkenes, alkynes, allenes, carbonyls, alternating C6 rings, '
         'radicals; adsorbates with 1-4 Pt bonds; out-of-vocabulary atoms for the failure clause). distinct = distinct '
         '(scheme, canonical SMILES); non-trivial = more than 2 heavy atoms or a failure case.')
-ASSUMPTIONS = ['A-graph: RDKit explicit-H Kekule graph of the input is the molecule; SSSR ring order as RDKit reports it',
-               'the match lists of the patterns are those of the real matcher (its own correctness is C08); smiles/smarts-based '
-               'descriptors are not modelled (no shipped scheme uses them; checked each run)']
-TRUSTED = ['modelled, not verified: _AssignCenterPattern, _AssignGroup, _AssignDescriptor, remaps, final dict merge (Scheme.py:148-246)',
-           'harness/lib_scheme.prepare re-implements the input normalisation and Benson C6 perception independently (Python)']
+ASSUMPTIONS = ['A-graph: RDKit explicit-H Kekule graph of the input (after the sanitisation steps the code requests, AddHs, Kekulize, '
+               'UNSPECIFIED->ZERO, GetSymmSSSR) is the molecule; SSSR ring order as RDKit reports it; re-checked per molecule '
+               '(ring information stable and consistent, AtomRings = GetSymmSSSR, neighbour order = bond order, Mol.wf, rings are bonded cycles)',
+               'A-cand (C08): RDKit\'s candidate enumeration = the model\'s own; the cap of 10 000 candidates was inactive on every compared case (measured, reported)',
+               'the parse trees are those of the implementation\'s parser (C09); scheme entries, order, names, remaps from the live scheme objects; '
+               'pattern texts captured by wrapping the name `Read` the Scheme module calls during GroupLibrary.Load',
+               'smiles/smarts-based descriptors are not modelled (no shipped scheme uses them; checked each run)']
+TRUSTED = ['modelled, not verified: GroupAdditivityScheme.Load (reading of the pattern texts), _aromatization_Benson, GetQueryMatches (C08 model), '
+           '_AssignCenterPattern, _AssignGroup, _AssignDescriptor, remaps, final dict merge (Scheme.py:110-407)',
+           'harness/lib_scheme.prepare re-implements the input normalisation (and, for the embedding oracle only, the Benson C6 perception) '
+           'independently in Python; harness/lib_embeds.py + lib_scheme.frag_of_ast are the embedding oracle']
 
 
 def kind_of(name):
@@ -202,12 +213,14 @@ def replay(ctx, rec):
     return len(ctx.violations) == before
 
 
-LEVEL_TEXT = ('Lean 4 theorems about the model of the decomposition logic above the matcher, for every molecule size, every list of '
-              'patterns and every match list: centre assignment succeeds exactly when every atom is the first atom of matches of '
-              'exactly one centre pattern and then names it by that pattern; group counts are the number of atoms whose centre and '
-              'neighbour peripheral multiset give that canonical name; correction descriptors count distinct atom sets; remaps of '
-              'chain-free tables equal the linear substitution whatever the key order. Tied to Scheme.py by a correspondence run on the '
-              'nine shipped and derived synthetic schemes with a graph normalised independently of the repository (per-atom names via a guarded hook).')
-LEVEL_NOTE = ('Trusted: Lean kernel, standard axioms, the correspondence harness, RDKit as graph provider (A-graph). The matcher is an input of '
-              'these theorems (its correctness is C08). Not modelled: smiles/smarts-based descriptors (unused by every shipped scheme; checked each run).')
+LEVEL_TEXT = ('Lean 4 theorems, for every scheme, molecule graph and size: (above the matcher, any match lists) centre assignment succeeds exactly when '
+              'every atom is the first atom of matches of exactly one centre pattern and then names it by that pattern; group counts are the number of '
+              'atoms whose centre and neighbour peripheral multiset give that canonical name; correction descriptors count distinct atom sets; remaps of '
+              'chain-free tables equal the linear substitution whatever the key order; (end to end, C02_decompose_declared / C02_decompose_error_iff) the '
+              'model decompose = Benson perception + reader + matcher + decomposition equals that declared decomposition with every pattern\'s matches being '
+              'exactly its embeddings (C08 plugged in). Tied to Scheme.py/MolQuery.py/MolQueryRead.py by a correspondence run on the nine shipped and derived '
+              'synthetic schemes from the raw graph and the pattern parse trees (per-atom names and aromatised graph via a guarded hook).')
+LEVEL_NOTE = ('Trusted: Lean kernel, standard axioms, the correspondence harness, RDKit as graph provider (A-graph) and candidate enumerator (A-cand), the parser (C09). '
+              'Explicit hypotheses of the end-to-end theorems: well-formed graph, no `*` suffix (FM1), candidate counts below the cap of 10 000 (F30), chain-free remaps; '
+              'all observed to hold on every compared case. Not modelled: smiles/smarts-based descriptors (unused by every shipped scheme; checked each run).')
 TECHNIQUE = 'Lean 4 proof over hand-written model + correspondence check (independent normalisation, per-atom hook) + declarative spec oracle'
